@@ -321,7 +321,7 @@ func fieldType(id field.ID) field.Type {
 
 // compare checks the observed content against the model: exact aggregate for sum/min/max/histogram,
 // membership for first/last, no cell appears or disappears.
-func compare(c *core.RunCtx, sigPrefix, when string, mdl model, obs observed) bool {
+func compare(c *core.RunCtx, sigPrefix, when string, mdl model, obs observed, strict ...func(k cellKey, got []float64) bool) bool {
 	c.Oracle()
 	keys := make([]cellKey, 0, len(mdl))
 	for k := range mdl {
@@ -361,6 +361,11 @@ func compare(c *core.RunCtx, sigPrefix, when string, mdl model, obs observed) bo
 				}
 				if !found {
 					c.Violate(sigPrefix+"/first-last-not-contributed", "%s: metric %d series %d field %d slot %d: files hold %v, contributed %v", when, k.metric, k.series, k.field, k.slot, got, want)
+					return false
+				}
+			}
+			for _, f := range strict {
+				if !f(k, got) {
 					return false
 				}
 			}
@@ -414,7 +419,7 @@ func maxOf(v []float64) float64 {
 	return m
 }
 
-func (mdl model) addFile(fc *fileContent, slotOf func(metric uint32, slot uint16) int) {
+func (mdl model) addFile(fc *fileContent, slotOf func(metric uint32, slot uint16) int, rec ...func(k cellKey, v float64, srcSlot uint16)) {
 	mids := make([]int, 0, len(fc.metrics))
 	for m := range fc.metrics {
 		mids = append(mids, int(m))
@@ -423,10 +428,25 @@ func (mdl model) addFile(fc *fileContent, slotOf func(metric uint32, slot uint16
 	for _, m := range mids {
 		mc := fc.metrics[uint32(m)]
 		for _, sid := range mc.series {
-			for fid, vs := range mc.values[sid] {
-				for s, v := range vs {
-					k := cellKey{uint32(m), sid, fid, slotOf(uint32(m), s)}
+			fids := make([]int, 0, len(mc.values[sid]))
+			for fid := range mc.values[sid] {
+				fids = append(fids, int(fid))
+			}
+			sort.Ints(fids)
+			for _, fid := range fids {
+				vs := mc.values[sid][field.ID(fid)]
+				slots := make([]int, 0, len(vs))
+				for s := range vs {
+					slots = append(slots, int(s))
+				}
+				sort.Ints(slots)
+				for _, s := range slots {
+					v := vs[uint16(s)]
+					k := cellKey{uint32(m), sid, field.ID(fid), slotOf(uint32(m), uint16(s))}
 					mdl[k] = append(mdl[k], v)
+					for _, f := range rec {
+						f(k, v, uint16(s))
+					}
 				}
 			}
 		}
